@@ -149,6 +149,19 @@ Theorem C03_separator_not_escaped : exists c1 c2, e_sans c1 <> e_sans c2 /\
 Proof. exact san_separator_ambiguity. Qed.
 Print Assumptions C03_separator_not_escaped.
 
+(* a certificate inside RFC 5280's profile (one rfc822Name with a quoted local part) whose report reads
+   back with a name - evil.example - that is not encoded: known finding C03-separator *)
+Theorem C03_separator_invents_name : exists c v,
+  enc_ok {| e_version := e_version c; e_serial := e_serial c; e_subject := e_subject c; e_issuer := e_issuer c;
+            e_not_before := e_not_before c; e_not_after := e_not_after c; e_spki := e_spki c;
+            e_basic := e_basic c; e_key_usage := e_key_usage c; e_ekus := e_ekus c; e_sans := None;
+            e_ski := e_ski c; e_aki := e_aki c; e_sig := e_sig c |} = true /\
+  read_back (describe (x509_spec c)) = Some v /\
+  In (bs "evil.example") (w_sans v) /\
+  ~ In (bs "evil.example") (map san_text (opt_list (e_sans c))).
+Proof. exact separator_invents_name. Qed.
+Print Assumptions C03_separator_invents_name.
+
 (* ---- serial ---- *)
 Theorem C03_serial_decimal : forall c, enc_ok c = true ->
   attr (bs "Serial") (shown c) = Some (dec_of_N (e_serial c)).
